@@ -383,6 +383,15 @@ class C15(PropBase):
         out.append(self.mk_files("files:good", good))
         out.append(self.mk_files("files:good", list(reversed(good))))
         out.append(self.mk_files("files:none", []))
+        # fs storage discovers the files by a directory walk: an entry that cannot be read (a dangling symbolic link
+        # named like a journal file) is an error of the whole load, not something to skip
+        for names in (["a.txn", "b.txn"], ["sub/a.txn", "sub/deep/b.txn"], ["b.txn", "z/a.txn"]):
+            c = {"op": "run", "kind": "files:walk-dangling-symlink", "cfg": {}, "walk": True, "want": ["txns", "identity"],
+                 "files": [{"name": names[0], "text": good[0]}, {"name": names[1], "symlink": "no/such/target.txn", "text": ""}]}
+            out.append(c)
+        out.append({"op": "run", "kind": "files:walk-good", "cfg": {}, "walk": True, "want": ["txns", "identity"],
+                    "files": [{"name": "a.txn", "text": good[0]}, {"name": "sub/b.txn", "text": good[1]},
+                              {"name": "sub/ignored.txt", "text": "not a journal"}]})
         out.append(self.mk_files("files:strict", [good[2], body], cfg={"strict": True, "accounts": ["a", "b"], "commodities": ["EUR"]}))
         out.append(self.mk_files("files:strict", [good[2], good[1]], cfg={"strict": True, "accounts": ["a", "b"], "commodities": ["EUR"]}))
         return out
@@ -442,6 +451,8 @@ class C15(PropBase):
         k = case.get("kind", "")
         if k.startswith("acct-depth:") and k.split(":")[1].isdigit() and int(k.split(":")[1]) >= 5000:
             return None     # depth >= 5000: the model's account tree (lists of paths) is cubic; implementation and oracle only
+        if case.get("walk"):
+            return None     # the directory walk (walkdir) is not modelled: implementation and oracle only
         c = {k: v for k, v in case.items() if k not in ("kind",)}
         c["cfg"] = model_cfg(case.get("cfg", {}))
         c["tscfg"] = ts
@@ -463,6 +474,8 @@ class C15(PropBase):
                     where.append((i, "reparse"))
             if "files" in c:
                 for k, f in enumerate(c["files"]):
+                    if f.get("symlink") is not None or not f["name"].endswith(".txn"):
+                        continue
                     second.append({"op": "run", "cfg": c.get("cfg", {}), "text": f["text"], "want": []})
                     where.append((i, "each"))
         ans = common.run_driver([common.TK_IMPL], second)
@@ -503,6 +516,10 @@ class C15(PropBase):
             return {"sig": "crash:" + r.lower() + self.crash_class(case), "what": "loading ended with %s instead of a result or an error" % r}
         if r not in ("OK", "ERR"):
             return {"sig": "status:" + str(r), "what": "unexpected load status %s: %s" % (r, str(impl.get("msg"))[:200])}
+        if "files" in case and any(f.get("symlink") is not None for f in case["files"]):
+            if r == "OK":
+                return {"sig": "walk-error-swallowed", "what": "the directory walk met an unreadable entry (dangling symbolic link) and the load succeeded from the other files"}
+            return None
         if "files" in case:
             each = impl.get("each", [])
             if any(e not in ("OK", "ERR") for e in each):
